@@ -75,7 +75,7 @@ def _worker(args):
         m = n if top else min(n, 1000)
         if k == "iter":
             items = [build(i, n, None, False) for i in o["items"]]
-            return (spy.SpyGenerator if c == "gen" else spy.SpyIterable)(items)
+            return {"gen": spy.SpyGenerator, "USizedIter": spy.SpySizedIterator}.get(c, spy.SpyIterable)(items)
         if k == "map":
             hkk, hv = (h["a"][0], h["a"][1]) if hk == "map" else (None, None)
             pairs = [(build(p["key"], n, hkk, False), build(p["val"], n, hv, False)) for p in o["items"]]
@@ -165,7 +165,14 @@ def _worker(args):
             return (len(o["items"]) > 0) * 2 + any(isinstance(i, dict) and i.get("items") for i in o["items"])
         cand_ok.sort(key=lambda j: (-score(j), j))
         cand_bad.sort(key=lambda j: (-score(j), j))
-        picks = [(j, "accept") for j in cand_ok[:opts["per_hint"]]] + [(j, "reject") for j in cand_bad[:opts["per_hint"]]]
+        def spread(c, k):
+            """the best-scored candidate plus candidates spread evenly over the whole list (diverse shapes)"""
+            if len(c) <= k:
+                return c
+            step = max(1, len(c) // (k - 1))
+            return sorted(set([c[0]] + c[step::step][:k - 1]))
+        picks = [(j, "accept") for j in spread(cand_ok, opts["per_hint"])] + \
+                [(j, "reject") for j in spread(cand_bad, opts["per_hint_reject"])]
         if mode == "C10":
             picks += [(j, "any") for j, o in enumerate(objs) if o["k"] == "iter"][:4]
 
@@ -225,7 +232,7 @@ def collect(rep, tier, seed, mode):
     files = glob.glob(os.path.join(rows, "row_*_1.json"))
     hids = sorted(int(os.path.basename(f).split("_")[1]) for f in files)
     opts = {"seed": seed, "mode": mode, "sizes": SIZES_QUICK if tier == "quick" else SIZES_THOROUGH,
-            "per_hint": 2 if tier == "quick" else 5}
+            "per_hint": 2 if tier == "quick" else 5, "per_hint_reject": 6 if tier == "quick" else 14}
     procs = 16
     chunks = [hids[i::procs * 2] for i in range(procs * 2)]
     with mp.get_context("fork").Pool(procs) as pool:
